@@ -1761,6 +1761,57 @@ def rejected_stream(ctx, n_cases, cap):
             ctx.fail('C10:%s:invalid-value-accepted' % site, 'constructor accepted an invalid %s' % site, dict(kind='ctor', site=site))
 
 
+# ----------------------------------------------------------------------------------------------- state machines vs model (K)
+def state_machine_stream(ctx, n_cases):
+    """K for the state-machine theorems: (a) histories of step / min_samples writes (valid and invalid, inside try/except) on a
+    real integrator vs `IntegState.run`; (b) histories of initialise / update / finalise on ONE real RayTransferPipeline0D vs
+    `Pipe0D.observe` folded over the history."""
+    from cherab.tools.raytransfer import RayTransferPipeline0D
+    from cherab.tools.raytransfer.emitters import CartesianRayTransferIntegrator, CylindricalRayTransferIntegrator
+    rng = ctx.rng
+    lines, exp = [], []
+    for it in range(n_cases):
+        st0, ms0 = rng.choice([0.1, 1e-3, 2.5]), rng.choice([2, 3, 7])
+        integ = rng.choice([CartesianRayTransferIntegrator, CylindricalRayTransferIntegrator])(st0, ms0)
+        toks, stat = [], []
+        for _ in range(rng.randint(1, 8)):
+            if rng.random() < 0.5:
+                v = rng.choice([0.0, -0.0, -0.5, -1e-300, 5e-324, 1e-3, 0.25, 3.0, 1e300])
+                toks += ['s', f2b(v)]
+                stat.append('1' if call(setattr, integ, 'step', v)[0] == 'ok' else '0')
+            else:
+                v = rng.choice([-3, 0, 1, 2, 3, 10])
+                toks += ['m', str(v)]
+                stat.append('1' if call(setattr, integ, 'min_samples', v)[0] == 'ok' else '0')
+        lines.append('ihist %s %d %s' % (f2b(st0), ms0, ' '.join(toks)))
+        exp.append(' '.join(stat) + ' | %s %d' % (f2b(integ.step), integ.min_samples))
+        ctx.count('K:integrator-history')
+        # pipeline history
+        pipe = RayTransferPipeline0D(kind=rng.choice(['power', 'radiance']))
+        toks, mats = [], []
+        for _ in range(rng.randint(1, 3)):
+            bins, nres = rng.randint(1, 4), rng.randint(1, 3)
+            pipe.initialise(500.0, 501.0, bins, 1, True)
+            toks += [str(bins), str(nres)]
+            for _ in range(nres):
+                ns = rng.randint(1, 5)
+                arr = np.array([rng.choice([0.0, 0.5, 1.25, rng.uniform(0, 3)]) for _ in range(bins)])
+                pipe.update(0, (arr, 0), ns)
+                toks += [str(ns)] + [f2b(v) for v in arr]
+            pipe.finalise()
+            mats.append(fs([float(v) for v in pipe.matrix]))
+        lines.append('pipe0d ' + ' '.join(toks))
+        exp.append(' | '.join(mats))
+        ctx.count('K:pipeline0D-history')
+    outs = ctx.driver(lines)
+    for l, e, o in zip(lines, exp, outs):
+        ctx.traces += 1
+        ctx.case(key=('state-machine', l[:60]))
+        if e != o:
+            ctx.disagreements += 1
+            ctx.broke('correspondence', 'C10 state machine (%s)' % l.split()[0], dict(line=l[:300], model=o[:300], implementation=e[:300]))
+
+
 # ----------------------------------------------------------------------------------------------- pipelines
 def _observers():
     """deterministic 1D / 2D observers (python subclasses of raysect's abstract observers): pixel -> one fixed ray"""
@@ -2006,6 +2057,7 @@ def run(ctx):
     setter_stream(ctx, ctx.n(150, 1500), cap)
     aliasing_stream(ctx, ctx.n(300, 3000), cap)
     rejected_stream(ctx, ctx.n(120, 1200), cap)
+    state_machine_stream(ctx, ctx.n(200, 2000))
     pipeline_stream(ctx, ctx.n(18, 150))
 
 
